@@ -56,6 +56,11 @@ type Follower struct {
 	HaltBug   bool
 
 	Ended string // non-empty once the follower has stopped (undefined opcode, STOP, ...)
+	// ThroughStop lets the follower sit through STOP mode (the harness must deliver key events)
+	// instead of ending at a STOP instruction.
+	ThroughStop bool
+	StopCycles  int64
+	inStop      bool
 
 	// counters
 	Instrs, Dispatches, IdleCycles, Wakes, Partials, Resyncs, HaltBugs, MemChecks int64
@@ -165,8 +170,27 @@ func vectorOf(bit uint8) uint16 {
 func (f *Follower) begin() bool {
 	m := f.M
 	if m.CPU.XStopped() {
-		f.Ended = "stopped"
-		return false
+		if !f.ThroughStop {
+			f.Ended = "stopped"
+			return false
+		}
+		// STOP mode: nothing is judged until a key event has ended it (what the CPU does with
+		// requests while stopped is outside every statement)
+		f.regs0 = Regs(m)
+		f.cyc = 0
+		f.kind = UnitIdle
+		f.skipCompare = true
+		f.inStop = true
+		f.StopCycles++
+		return true
+	}
+	if f.inStop {
+		// back from STOP mode: adopt the machine's interrupt state and carry on
+		f.inStop = false
+		f.IME = m.IRQ.Enabled()
+		f.Halted = m.CPU.XHalted()
+		f.HaltBug, f.EIPending, f.enableAfter = false, false, false
+		f.lastWasEI = true
 	}
 	f.regs0 = Regs(m)
 	f.if0 = m.IRQ.ReadIF() & 0x1f
@@ -523,7 +547,7 @@ func (f *Follower) endInstr(got ref.Regs) {
 			f.HaltBug = true
 		}
 	}
-	if p.Stop {
+	if p.Stop && !f.ThroughStop {
 		f.Ended = "stop"
 	}
 	if f.OnRetire != nil {
